@@ -55,236 +55,7 @@ func checkC07(p *Prog, r *Report) {
 
 	// ---- R7.1 write path -------------------------------------------------------------
 	r.Rule("R7.1", "Conn.Write / WriteToPair hand the payload to a pair's socket only when the agent is not closed, the payload is not STUN, and the pair is the selected pair, else the best pair in state Succeeded (WriteToPair: the pair registered under the id, in state Succeeded); otherwise an error is returned. CandidatePair.Write sends from the pair's local candidate to the pair's remote.", 8)
-	for _, f := range []*Func{cw, wtp} {
-		writes := p.CallsTo(f, false, "ice.CandidatePair.Write")
-		if len(writes) != 1 {
-			r.Fail(f.Name+": single socket write", p.Pos(f.Body.Pos()), itoa(len(writes))+" pair.Write calls")
-			continue
-		}
-		w := writes[0]
-		facts, _ := p.FactsAtCall(f, w)
-		_, open := p.HasCallEqNil(facts, f, "taskloop.Loop.Err", 0, true)
-		if !open {
-			// "the test was passed on the way here" (the error variable may have been re-used since)
-			open = factListHas(p.DominatingFactList(f, w), func(ft Fact) bool {
-				if ft.Op != "==" || !ft.Val || ft.Y == nil || !p.isNilExpr(ft.Y) {
-					return false
-				}
-				_, ok := p.exprIsCallTo(f, ft.X, "taskloop.Loop.Err", 0)
-				return ok
-			})
-		}
-		_, notStun := p.HasCallTruth(facts, f, "stun.IsMessage", 0, false)
-		r.Check(open, f.Name+": write requires an open agent", p.Pos(w.Pos()), "dominated by loop.Err() == nil", "data can be written after Close without the closed error")
-		r.Check(notStun, f.Name+": STUN payloads refused", p.Pos(w.Pos()), "dominated by !stun.IsMessage(packet)", "payloads that parse as STUN are written to the peer")
-		// the argument of IsMessage is the payload parameter, as is what is written
-		pkt := p.paramObj(f, len(f.Type.Params.List)-1)
-		if f == wtp {
-			pkt = p.paramObj(f, 1)
-		}
-		okArg := len(w.Args) == 1 && p.mentionsObj(w.Args[0], pkt)
-		for _, c := range p.CallsTo(f, false, "stun.IsMessage") {
-			if len(c.Args) != 1 || !p.mentionsObj(c.Args[0], pkt) {
-				okArg = false
-			}
-		}
-		r.Check(okArg, f.Name+": the tested payload is the written payload", p.Pos(w.Pos()), "same parameter", "the STUN test and the socket write use different buffers")
-		sel, _ := unparen(w.Fun).(*ast.SelectorExpr)
-		if sel == nil {
-			continue
-		}
-		pairID, _ := unparen(sel.X).(*ast.Ident)
-		if pairID == nil {
-			r.Unknown(f.Name+": written pair", p.Pos(w.Pos()), "receiver of Write is not a variable")
-			continue
-		}
-		nonNil := facts.Has(func(ft Fact) bool {
-			id, ok := unparen(ft.X).(*ast.Ident)
-			return ft.Op == "==" && !ft.Val && p.isNilExpr(ft.Y) && ok && p.ObjOf(id) == p.ObjOf(pairID)
-		})
-		if f == cw {
-			r.Check(nonNil, "Conn.Write: no pair, no write", p.Pos(w.Pos()), "dominated by pair != nil", "with no validated pair the write does not fail")
-			// provenance: selected pair, or best valid pair computed inside the loop
-			good := true
-			var why []string
-			// definitions of the written pair, looked through plain copies of locals that are assigned in this
-			// function itself (result temporaries of an extracted lookup)
-			var defs []VarDef
-			var expand func(o types.Object, depth int)
-			seenV := map[types.Object]bool{}
-			expand = func(o types.Object, depth int) {
-				if o == nil || seenV[o] || depth > 4 {
-					return
-				}
-				seenV[o] = true
-				for _, d := range p.DefsOf(f, o) {
-					if d.Rhs != nil && d.Index == 0 {
-						if id, ok := unparen(d.Rhs).(*ast.Ident); ok {
-							if v, isVar := p.ObjOf(id).(*types.Var); isVar && !v.IsField() {
-								assigned := false
-								for _, dd := range p.DefsOf(f, v) {
-									if dd.Rhs != nil {
-										assigned = true
-									}
-								}
-								if assigned {
-									expand(v, depth+1)
-									continue
-								}
-							}
-						}
-					}
-					defs = append(defs, d)
-				}
-			}
-			expand(p.ObjOf(pairID), 0)
-			for _, d := range defs {
-				if d.Rhs == nil || p.isNilExpr(d.Rhs) {
-					continue
-				}
-				if c, ok := unparen(d.Rhs).(*ast.CallExpr); ok && p.CalleeName(c) == "ice.Agent.getSelectedPair" {
-					continue
-				}
-				if calls, ok := p.allDefsAreResultOf(f, d.Rhs, "ice.Agent.getBestValidCandidatePair", 0); ok {
-					// computed inside a loop task
-					for _, c := range calls {
-						fn := p.EnclosingFunc(c.Pos())
-						inLoop := false
-						for _, e := range p.Callers(fn) {
-							if e.Kind == "arg" && e.Via == "taskloop.Loop.Run" {
-								inLoop = true
-							}
-						}
-						if !inLoop {
-							good = false
-							why = append(why, "best valid pair computed outside the task loop")
-						}
-					}
-					continue
-				}
-				good = false
-				why = append(why, "pair assigned from "+stripVarLines(p.Canon(d.Rhs)))
-			}
-			r.Check(good, "Conn.Write: pair is the selected pair or the best validated pair", p.Pos(w.Pos()), "getSelectedPair() / getBestValidCandidatePair() in the loop", strings.Join(why, "; "))
-		} else {
-			_, noErr := facts, false
-			// the variable through which the lookup closure reports "no such pair"
-			lookupErrObj := p.localByDef(f, func(rhs ast.Expr) bool { return p.MentionsObj(rhs, "ice.ErrCandidatePairNotFound") })
-			noErr = facts.Has(func(ft Fact) bool {
-				return ft.Op == "==" && ft.Val && p.isNilExpr(ft.Y) && p.isObj(ft.X, lookupErrObj)
-			})
-			if lookupErrObj == nil && p.writeToPairDirectForm(f, w, pairID, facts, nonNil) {
-				// the other spelling: the lookup only snapshots the pair and its state under the loop,
-				// and the caller itself rejects a missing pair and a state other than Succeeded
-				r.OK("WriteToPair: lookup succeeded", p.Pos(w.Pos()), "dominated by pair != nil and the state read under the loop == Succeeded")
-				continue
-			}
-			r.Check(noErr, "WriteToPair: lookup succeeded", p.Pos(w.Pos()), "dominated by lookupErr == nil", "the write is reachable although the pair lookup reported an error")
-			// the lookup closure
-			var lit *Func
-			for _, l := range f.Lits {
-				lit = l
-			}
-			if r.Anchor("WriteToPair lookup closure", lit != nil) {
-				t := p.NewTable(lit)
-				t.Event = func(n ast.Node, _ *TEnv) []string {
-					as, ok := n.(*ast.AssignStmt)
-					if !ok || len(as.Lhs) != 1 {
-						return nil
-					}
-					id, ok := as.Lhs[0].(*ast.Ident)
-					if !ok {
-						return nil
-					}
-					// roles by type: the error result and the pair result of the lookup
-					switch {
-					case isErrorType(p.TypeOf(id)):
-						return []string{"err=" + p.constNameOrVar(as.Rhs[0])}
-					case typeStr(p.TypeOf(id)) == "*ice.CandidatePair":
-						if ix, ok := unparen(as.Rhs[0]).(*ast.IndexExpr); ok && p.IsField(ix.X, "Agent.pairsByID") {
-							if kid, ok := unparen(ix.Index).(*ast.Ident); ok && p.ObjOf(kid) == p.paramObj(f, 0) {
-								return []string{"pair=pairsByID[id]"}
-							}
-						}
-						return []string{"pair=?"}
-					}
-					return nil
-				}
-				t.Run()
-				sawState := false
-				defer func() {
-					if !sawState {
-						r.curRule = "R7.1"
-						r.Fail("WriteToPair lookup: state test", p.Pos(lit.Body.Pos()), "the lookup never rejects a pair that is not in state Succeeded")
-					}
-				}()
-				for _, pa := range t.Paths {
-					isNil, state := "", ""
-					for _, d := range pa.Hist {
-						if d.Atom.Kind == "enum" && p.IsField(d.Atom.X, "CandidatePair.state") {
-							state = d.Val
-						} else if d.Atom.Kind == "enum" {
-							isNil = d.Val
-						}
-					}
-					want := "pair=pairsByID[id]"
-					switch {
-					case isNil == "==nil":
-						want += ",err=ErrCandidatePairNotFound"
-					case state == "!=CandidatePairStateSucceeded":
-						sawState = true
-						want += ",err=ErrCandidatePairNotSucceeded"
-					}
-					got := strings.Join(pa.Events, ",")
-					r.Check(got == want, "WriteToPair lookup row pair"+isNil+" state"+state, pa.EndPos, "-> "+want, "the lookup does ["+got+"], required ["+want+"]: only the registered pair in state Succeeded may be written to")
-				}
-			}
-		}
-	}
-	if f := p.Fn("Agent.getBestValidCandidatePair"); r.Anchor("Agent.getBestValidCandidatePair", f != nil) {
-		n := 0
-		// the result variable(s): whatever the function returns
-		results := map[types.Object]bool{}
-		walkBody(f, func(x ast.Node) bool {
-			if rs, ok := x.(*ast.ReturnStmt); ok {
-				for _, e := range rs.Results {
-					if id, ok := unparen(e).(*ast.Ident); ok {
-						if o := p.ObjOf(id); o != nil {
-							results[o] = true
-						}
-					}
-				}
-			}
-			return true
-		})
-		walkBody(f, func(x ast.Node) bool {
-			as, ok := x.(*ast.AssignStmt)
-			if !ok || len(as.Lhs) != 1 || len(as.Rhs) != 1 || p.isNilExpr(as.Rhs[0]) {
-				return true
-			}
-			if id, ok := as.Lhs[0].(*ast.Ident); !ok || !results[p.ObjOf(id)] {
-				return true
-			}
-			n++
-			facts, _ := p.FactsAtCall(f, as)
-			ok2 := p.hasFieldEq(facts, "CandidatePair.state", "CandidatePairStateSucceeded", true)
-			r.Check(ok2, "getBestValidCandidatePair: only Succeeded pairs", p.Pos(as.Pos()), "assignment dominated by state == Succeeded", "a pair that is not Succeeded can become the 'best valid' pair used for data before selection")
-			return true
-		})
-		if n == 0 {
-			r.Fail("getBestValidCandidatePair: only Succeeded pairs", p.Pos(f.Body.Pos()), "no candidate assignment found")
-		}
-	}
-	if f := p.Fn("CandidatePair.Write"); r.Anchor("CandidatePair.Write", f != nil) {
-		ok := false
-		for _, c := range p.CallsTo(f, false, "ice.Candidate.writeTo") {
-			sel, _ := unparen(c.Fun).(*ast.SelectorExpr)
-			if sel != nil && p.IsField(sel.X, "CandidatePair.Local") && len(c.Args) == 2 && p.IsField(c.Args[1], "CandidatePair.Remote") {
-				ok = true
-			}
-		}
-		r.Check(ok, "CandidatePair.Write: local socket to the pair's remote", p.Pos(f.Body.Pos()), "p.Local.writeTo(b, p.Remote)", "data does not leave through the pair's local candidate towards the pair's remote")
-	}
+	checkWritePath(p, r, cw, wtp)
 
 	// ---- R7.2 read path ---------------------------------------------------------------------
 	r.Rule("R7.2", "Only the candidate receive path writes into the application reader's buffer; that write is dominated by !stun.IsMessage and every path to it crosses a positive source validation (the per-candidate cache hit, or validateNonSTUNTraffic finding a remote candidate on the local candidate's transport). The cache is filled only after such a validation.", 6)
@@ -531,6 +302,9 @@ func checkC07(p *Prog, r *Report) {
 	// ---- R7.6 queued datagrams keep their contents ----------------------------------------------------------
 	r.Rule("R7.6", "On the ICE-TCP receive path each de-framed datagram is queued as a private copy, never as a slice of the reader's reused buffer (shared with C14 R14.9): what the application reads is what the peer sent, also under a backlog.", 1)
 	checkQueuedPacketsOwnTheirBytes(p, r)
+	// ---- R7.7 ICE-TCP data leaves on the pair's own connection -------------------------------------------------
+	r.Rule("R7.7", "On a passive ICE-TCP candidate the payload handed to the pair's local socket for the pair's remote address is framed onto the TCP connection registered under exactly that address (rule of C15 R15.13): with no such connection the write fails, it is never redirected to another peer's connection.", 1)
+	checkTCPReplyGoesToItsPeer(p, r)
 }
 
 // constNameOrVar renders an error sentinel or variable name.
@@ -651,4 +425,238 @@ func (p *Prog) writeToPairDirectForm(f *Func, w *ast.CallExpr, pairID *ast.Ident
 			return ok && p.ObjOf(x) == pairObj
 		})
 	})
+}
+
+// checkWritePath: C07 R7.1, shared with C06 R6.12.
+func checkWritePath(p *Prog, r *Report, cw, wtp *Func) {
+	for _, f := range []*Func{cw, wtp} {
+		writes := p.CallsTo(f, false, "ice.CandidatePair.Write")
+		if len(writes) != 1 {
+			r.Fail(f.Name+": single socket write", p.Pos(f.Body.Pos()), itoa(len(writes))+" pair.Write calls")
+			continue
+		}
+		w := writes[0]
+		facts, _ := p.FactsAtCall(f, w)
+		_, open := p.HasCallEqNil(facts, f, "taskloop.Loop.Err", 0, true)
+		if !open {
+			// "the test was passed on the way here" (the error variable may have been re-used since)
+			open = factListHas(p.DominatingFactList(f, w), func(ft Fact) bool {
+				if ft.Op != "==" || !ft.Val || ft.Y == nil || !p.isNilExpr(ft.Y) {
+					return false
+				}
+				_, ok := p.exprIsCallTo(f, ft.X, "taskloop.Loop.Err", 0)
+				return ok
+			})
+		}
+		_, notStun := p.HasCallTruth(facts, f, "stun.IsMessage", 0, false)
+		r.Check(open, f.Name+": write requires an open agent", p.Pos(w.Pos()), "dominated by loop.Err() == nil", "data can be written after Close without the closed error")
+		r.Check(notStun, f.Name+": STUN payloads refused", p.Pos(w.Pos()), "dominated by !stun.IsMessage(packet)", "payloads that parse as STUN are written to the peer")
+		// the argument of IsMessage is the payload parameter, as is what is written
+		pkt := p.paramObj(f, len(f.Type.Params.List)-1)
+		if f == wtp {
+			pkt = p.paramObj(f, 1)
+		}
+		okArg := len(w.Args) == 1 && p.mentionsObj(w.Args[0], pkt)
+		for _, c := range p.CallsTo(f, false, "stun.IsMessage") {
+			if len(c.Args) != 1 || !p.mentionsObj(c.Args[0], pkt) {
+				okArg = false
+			}
+		}
+		r.Check(okArg, f.Name+": the tested payload is the written payload", p.Pos(w.Pos()), "same parameter", "the STUN test and the socket write use different buffers")
+		sel, _ := unparen(w.Fun).(*ast.SelectorExpr)
+		if sel == nil {
+			continue
+		}
+		pairID, _ := unparen(sel.X).(*ast.Ident)
+		if pairID == nil {
+			r.Unknown(f.Name+": written pair", p.Pos(w.Pos()), "receiver of Write is not a variable")
+			continue
+		}
+		nonNil := facts.Has(func(ft Fact) bool {
+			id, ok := unparen(ft.X).(*ast.Ident)
+			return ft.Op == "==" && !ft.Val && p.isNilExpr(ft.Y) && ok && p.ObjOf(id) == p.ObjOf(pairID)
+		})
+		if f == cw {
+			r.Check(nonNil, "Conn.Write: no pair, no write", p.Pos(w.Pos()), "dominated by pair != nil", "with no validated pair the write does not fail")
+			// provenance: selected pair, or best valid pair computed inside the loop
+			good := true
+			var why []string
+			// definitions of the written pair, looked through plain copies of locals that are assigned in this
+			// function itself (result temporaries of an extracted lookup)
+			var defs []VarDef
+			var expand func(o types.Object, depth int)
+			seenV := map[types.Object]bool{}
+			expand = func(o types.Object, depth int) {
+				if o == nil || seenV[o] || depth > 4 {
+					return
+				}
+				seenV[o] = true
+				for _, d := range p.DefsOf(f, o) {
+					if d.Rhs != nil && d.Index == 0 {
+						if id, ok := unparen(d.Rhs).(*ast.Ident); ok {
+							if v, isVar := p.ObjOf(id).(*types.Var); isVar && !v.IsField() {
+								assigned := false
+								for _, dd := range p.DefsOf(f, v) {
+									if dd.Rhs != nil {
+										assigned = true
+									}
+								}
+								if assigned {
+									expand(v, depth+1)
+									continue
+								}
+							}
+						}
+					}
+					defs = append(defs, d)
+				}
+			}
+			expand(p.ObjOf(pairID), 0)
+			for _, d := range defs {
+				if d.Rhs == nil || p.isNilExpr(d.Rhs) {
+					continue
+				}
+				if c, ok := unparen(d.Rhs).(*ast.CallExpr); ok && p.CalleeName(c) == "ice.Agent.getSelectedPair" {
+					continue
+				}
+				if calls, ok := p.allDefsAreResultOf(f, d.Rhs, "ice.Agent.getBestValidCandidatePair", 0); ok {
+					// computed inside a loop task
+					for _, c := range calls {
+						fn := p.EnclosingFunc(c.Pos())
+						inLoop := false
+						for _, e := range p.Callers(fn) {
+							if e.Kind == "arg" && e.Via == "taskloop.Loop.Run" {
+								inLoop = true
+							}
+						}
+						if !inLoop {
+							good = false
+							why = append(why, "best valid pair computed outside the task loop")
+						}
+					}
+					continue
+				}
+				good = false
+				why = append(why, "pair assigned from "+stripVarLines(p.Canon(d.Rhs)))
+			}
+			r.Check(good, "Conn.Write: pair is the selected pair or the best validated pair", p.Pos(w.Pos()), "getSelectedPair() / getBestValidCandidatePair() in the loop", strings.Join(why, "; "))
+		} else {
+			_, noErr := facts, false
+			// the variable through which the lookup closure reports "no such pair"
+			lookupErrObj := p.localByDef(f, func(rhs ast.Expr) bool { return p.MentionsObj(rhs, "ice.ErrCandidatePairNotFound") })
+			noErr = facts.Has(func(ft Fact) bool {
+				return ft.Op == "==" && ft.Val && p.isNilExpr(ft.Y) && p.isObj(ft.X, lookupErrObj)
+			})
+			if lookupErrObj == nil && p.writeToPairDirectForm(f, w, pairID, facts, nonNil) {
+				// the other spelling: the lookup only snapshots the pair and its state under the loop,
+				// and the caller itself rejects a missing pair and a state other than Succeeded
+				r.OK("WriteToPair: lookup succeeded", p.Pos(w.Pos()), "dominated by pair != nil and the state read under the loop == Succeeded")
+				continue
+			}
+			r.Check(noErr, "WriteToPair: lookup succeeded", p.Pos(w.Pos()), "dominated by lookupErr == nil", "the write is reachable although the pair lookup reported an error")
+			// the lookup closure
+			var lit *Func
+			for _, l := range f.Lits {
+				lit = l
+			}
+			if r.Anchor("WriteToPair lookup closure", lit != nil) {
+				t := p.NewTable(lit)
+				t.Event = func(n ast.Node, _ *TEnv) []string {
+					as, ok := n.(*ast.AssignStmt)
+					if !ok || len(as.Lhs) != 1 {
+						return nil
+					}
+					id, ok := as.Lhs[0].(*ast.Ident)
+					if !ok {
+						return nil
+					}
+					// roles by type: the error result and the pair result of the lookup
+					switch {
+					case isErrorType(p.TypeOf(id)):
+						return []string{"err=" + p.constNameOrVar(as.Rhs[0])}
+					case typeStr(p.TypeOf(id)) == "*ice.CandidatePair":
+						if ix, ok := unparen(as.Rhs[0]).(*ast.IndexExpr); ok && p.IsField(ix.X, "Agent.pairsByID") {
+							if kid, ok := unparen(ix.Index).(*ast.Ident); ok && p.ObjOf(kid) == p.paramObj(f, 0) {
+								return []string{"pair=pairsByID[id]"}
+							}
+						}
+						return []string{"pair=?"}
+					}
+					return nil
+				}
+				t.Run()
+				sawState := false
+				defer func() {
+					if !sawState {
+						// (the deferred check runs when this function returns: the rule is still the current one)
+						r.Fail("WriteToPair lookup: state test", p.Pos(lit.Body.Pos()), "the lookup never rejects a pair that is not in state Succeeded")
+					}
+				}()
+				for _, pa := range t.Paths {
+					isNil, state := "", ""
+					for _, d := range pa.Hist {
+						if d.Atom.Kind == "enum" && p.IsField(d.Atom.X, "CandidatePair.state") {
+							state = d.Val
+						} else if d.Atom.Kind == "enum" {
+							isNil = d.Val
+						}
+					}
+					want := "pair=pairsByID[id]"
+					switch {
+					case isNil == "==nil":
+						want += ",err=ErrCandidatePairNotFound"
+					case state == "!=CandidatePairStateSucceeded":
+						sawState = true
+						want += ",err=ErrCandidatePairNotSucceeded"
+					}
+					got := strings.Join(pa.Events, ",")
+					r.Check(got == want, "WriteToPair lookup row pair"+isNil+" state"+state, pa.EndPos, "-> "+want, "the lookup does ["+got+"], required ["+want+"]: only the registered pair in state Succeeded may be written to")
+				}
+			}
+		}
+	}
+	if f := p.Fn("Agent.getBestValidCandidatePair"); r.Anchor("Agent.getBestValidCandidatePair", f != nil) {
+		n := 0
+		// the result variable(s): whatever the function returns
+		results := map[types.Object]bool{}
+		walkBody(f, func(x ast.Node) bool {
+			if rs, ok := x.(*ast.ReturnStmt); ok {
+				for _, e := range rs.Results {
+					if id, ok := unparen(e).(*ast.Ident); ok {
+						if o := p.ObjOf(id); o != nil {
+							results[o] = true
+						}
+					}
+				}
+			}
+			return true
+		})
+		walkBody(f, func(x ast.Node) bool {
+			as, ok := x.(*ast.AssignStmt)
+			if !ok || len(as.Lhs) != 1 || len(as.Rhs) != 1 || p.isNilExpr(as.Rhs[0]) {
+				return true
+			}
+			if id, ok := as.Lhs[0].(*ast.Ident); !ok || !results[p.ObjOf(id)] {
+				return true
+			}
+			n++
+			facts, _ := p.FactsAtCall(f, as)
+			ok2 := p.hasFieldEq(facts, "CandidatePair.state", "CandidatePairStateSucceeded", true)
+			r.Check(ok2, "getBestValidCandidatePair: only Succeeded pairs", p.Pos(as.Pos()), "assignment dominated by state == Succeeded", "a pair that is not Succeeded can become the 'best valid' pair used for data before selection")
+			return true
+		})
+		if n == 0 {
+			r.Fail("getBestValidCandidatePair: only Succeeded pairs", p.Pos(f.Body.Pos()), "no candidate assignment found")
+		}
+	}
+	if f := p.Fn("CandidatePair.Write"); r.Anchor("CandidatePair.Write", f != nil) {
+		ok := false
+		for _, c := range p.CallsTo(f, false, "ice.Candidate.writeTo") {
+			sel, _ := unparen(c.Fun).(*ast.SelectorExpr)
+			if sel != nil && p.IsField(sel.X, "CandidatePair.Local") && len(c.Args) == 2 && p.IsField(c.Args[1], "CandidatePair.Remote") {
+				ok = true
+			}
+		}
+		r.Check(ok, "CandidatePair.Write: local socket to the pair's remote", p.Pos(f.Body.Pos()), "p.Local.writeTo(b, p.Remote)", "data does not leave through the pair's local candidate towards the pair's remote")
+	}
 }
